@@ -16,7 +16,10 @@ RULE = ('generated (class model, document) pairs x meaning-preserving transforma
         'style with the same node tags, an unrelated class additionally registered, '
         'List/Sequence/MutableSequence and Dict/Mapping/MutableMapping interchanged in every annotation, '
         'bool_union_fix added to every Union containing bool; the outcome (equal value or failure) of '
-        'the real load must not change.  Non-trivial = the transformed input differs from the original.')
+        'the real load must not change.  Non-trivial = the transformed input differs from the original.'
+        'Directed families: !Unrelated tags on class mappings; Unions containing bool as item /'
+        ' value types of (nested, Optional) lists and dicts; documents with aliases re-rendered'
+        ' with every alias written out.')
 ASSUMPTIONS = ['PyYAML\'s serializer/emitter writes a node tree so that it re-composes to the same kinds, '
                'values and tags (checked per case; cases where it does not are skipped and counted)']
 
